@@ -577,6 +577,11 @@ def hint_keeps_relation_column_for_plain_field(case, outcome, atoms):
         return atoms
     out = []
     for a in atoms:
+        if a[0] == 'exception' and a[2] == 'AssertionError' and \
+                'related_model cannot be passed in field_attrs' in str(a[4]):
+            # ChangeField.simulate left 'related_model' among the field attributes
+            # (F-C05-4); the next mock model built from the signature trips over it
+            continue
         if a[0] == 'schema' and a[1] in cols and a[2] in ('column', 'fk', 'index'):
             names = set()
             if a[2] == 'index':
